@@ -105,10 +105,13 @@ def split(eng, v, sep, maxsplit=-1, charset=False):
     return [build(ps) for ps in pieces]
 
 
-def split_whitespace(eng, v):
+def split_whitespace(eng, v, maxsplit=-1):
     """str.split() without separator: tokens between runs of whitespace, no empty tokens.  Structural when every atom is
-    whitespace-free and provably non-empty (an empty atom could make a token vanish)."""
+    whitespace-free and provably non-empty (an empty atom could make a token vanish).  With maxsplit the remainder after that
+    many tokens (leading whitespace removed, trailing whitespace kept as python does) is the last element."""
     parts = parts_of(v)
+    if maxsplit is not None and maxsplit >= 0:
+        return _split_whitespace_max(eng, parts, maxsplit)
     for p in parts:
         if not isinstance(p, str):
             if not (WS <= excl(eng, p)):
@@ -246,3 +249,36 @@ def strip_chars(eng, v, chars, left):
         parts[0 if left else -1] = keep
         break
     return build(parts)
+
+
+def _split_whitespace_max(eng, parts, maxsplit):
+    for p in parts:
+        if not isinstance(p, str):
+            if not (WS <= excl(eng, p)):
+                raise Unsupported('split(): an atom may contain whitespace')
+            if _maybe_empty(eng, p):
+                raise Unsupported('split(): possibly empty atom')
+    # flatten into characters / atoms
+    flat = []
+    for p in parts:
+        if isinstance(p, str):
+            flat.extend(p)
+        else:
+            flat.append(p)
+    tokens, cur, i = [], [], 0
+    while i < len(flat):
+        x = flat[i]
+        ws = isinstance(x, str) and x in WS
+        if ws:
+            if cur:
+                tokens.append(cur)
+                cur = []
+        else:
+            if not cur and len(tokens) == maxsplit:
+                tokens.append(flat[i:])      # the remainder, verbatim (trailing whitespace kept)
+                return [build(t) for t in tokens]
+            cur.append(x)
+        i += 1
+    if cur:
+        tokens.append(cur)
+    return [build(t) for t in tokens]
